@@ -18,11 +18,55 @@ import (
 const (
 	ghostInvoked = "$invoked"
 	ghostTally   = "$tally"
+	// streamPosHeap: how many elements each iterator object has handed out. It behaves like memory
+	// (callees without a frame havoc it; a function that declares a frame may not advance a stream).
+	streamPosHeap = "StreamPos"
+	streamPosSort = "(Array Dyn Int)"
+	// ghostCallsPrefix + method name: how often this activation called that interface method on
+	// each receiver (methods whose contract says `counts`)
+	ghostCallsPrefix = "$calls:"
+	ghostCallsSort   = "(Array Dyn Int)"
 )
+
+// streamAdvance: an interface method whose contract says `stream` hands out the next element of its
+// receiver: the receiver's position goes up by one (its results are named, in the contract, as
+// functions of the receiver and the position before the call).
+func (vc *VC) streamAdvance(self Val, st *State) {
+	cur := vc.heapGet(st, streamPosHeap, streamPosSort)
+	vc.heapSet(st, streamPosHeap, streamPosSort, app("store", cur, self.t, app("+", app("select", cur, self.t), "1")))
+}
+
+// countCall: an interface method whose contract says `counts`.
+func (vc *VC) countCall(method string, self Val, st *State) {
+	name := ghostCallsPrefix + method
+	cur := vc.heapGet(st, name, ghostCallsSort)
+	vc.heapSet(st, name, ghostCallsSort, app("store", cur, self.t, app("+", app("select", cur, self.t), "1")))
+}
+
+func (vc *VC) callsGet(st *State, method string) Term {
+	return vc.heapGet(st, ghostCallsPrefix+method, ghostCallsSort)
+}
+
+// countedMethods: names of the interface methods whose contract says `counts` (their ghost counters
+// start at zero in every activation).
+func (vc *VC) countedMethods() []string {
+	var out []string
+	seen := map[string]bool{}
+	for _, fi := range vc.P.funcs {
+		if fi.fc.Counts && !seen[fi.fc.Name] {
+			seen[fi.fc.Name] = true
+			out = append(out, fi.fc.Name)
+		}
+	}
+	return out
+}
 
 func (vc *VC) ghostInit(st *State) {
 	vc.heapSet(st, ghostInvoked, "(Array Int Bool)", "((as const (Array Int Bool)) false)")
-	vc.heapSet(st, ghostTally, "(Array Str Int)", "((as const (Array Str Int)) 0)")
+	vc.heapSet(st, ghostTally, "(Array Int Int)", "((as const (Array Int Int)) 0)")
+	for _, m := range vc.countedMethods() {
+		vc.heapSet(st, ghostCallsPrefix+m, ghostCallsSort, "((as const "+ghostCallsSort+") 0)")
+	}
 }
 
 func (vc *VC) noteInvoked(st *State, fv Term) {
@@ -42,8 +86,8 @@ func (vc *VC) tallyCall(fi *FuncInfo, env map[string]Val, st *State) {
 		vc.fail("%s: tallies: unknown parameter", fi.fc.Key)
 	}
 	key := vc.mapKeyTerm(vc.asTerm(k), types.Typ[types.String])
-	cur := vc.heapGet(st, ghostTally, "(Array Str Int)")
-	vc.heapSet(st, ghostTally, "(Array Str Int)", app("store", cur, key, app("+", app("select", cur, key), vc.asTerm(a))))
+	cur := vc.heapGet(st, ghostTally, "(Array Int Int)")
+	vc.heapSet(st, ghostTally, "(Array Int Int)", app("store", cur, key, app("+", app("select", cur, key), vc.asTerm(a))))
 }
 
 func (ex *exprTr) ghostBuiltin(name string, args []Val, rt types.Type) (Val, bool) {
@@ -53,7 +97,22 @@ func (ex *exprTr) ghostBuiltin(name string, args []Val, rt types.Type) (Val, boo
 		return Val{t: app("select", vc.heapGet(ex.st, ghostInvoked, "(Array Int Bool)"), vc.asTerm(args[0])), typ: rt}, true
 	case "verif_tally":
 		key := vc.mapKeyTerm(vc.asTerm(args[0]), types.Typ[types.String])
-		return Val{t: app("select", vc.heapGet(ex.st, ghostTally, "(Array Str Int)"), key), typ: rt}, true
+		return Val{t: app("select", vc.heapGet(ex.st, ghostTally, "(Array Int Int)"), key), typ: rt}, true
+	case "verif_streamPos":
+		return Val{t: app("select", vc.heapGet(ex.st, streamPosHeap, streamPosSort), ex.coerceDyn(args[0])), typ: rt}, true
 	}
 	return Val{}, false
+}
+
+// coerceDyn: a value as an interface value (boxed when its static type is concrete).
+func (ex *exprTr) coerceDyn(v Val) Term {
+	if isInterface(v.typ) {
+		return v.t
+	}
+	return app(ex.vc.S.boxOf(v.typ).ctor, ex.vc.asTerm(v))
+}
+
+// callsBuiltin: calls(recv, "Method") -- how often this activation called that interface method on recv.
+func (ex *exprTr) callsBuiltin(recv Val, method string, rt types.Type) Val {
+	return Val{t: app("select", ex.vc.callsGet(ex.st, method), ex.coerceDyn(recv)), typ: rt}
 }
